@@ -864,6 +864,15 @@ def make_system(case, world):
     eqs = [eqs[i] for i in case.get("eq_order", range(len(eqs)))]
     unknowns = [unknowns[i] for i in case.get("u_order", range(len(unknowns)))]
     nets = {u: world["nets"][u] for u in unknowns}
+    import random as _random
+
+    def shuffled(d, salt):
+        """the same dictionary in its own insertion order (every per-unknown dictionary of the user is written
+        independently: entries must be matched by key, never by position)"""
+        ks = list(d)
+        _random.Random(int(case.get("seed", 0)) * 31 + salt).shuffle(ks)
+        return {k: d[k] for k in ks}
+
     dyn = {e: world["make_eq"](e) for e in eqs if pr["residuals"][e] is not None}
     kws = {u: world["cons_kwargs"](u) for u in unknowns}
     ws = {k: jinns_weight(v) for k, v in pr["wspec"].items()}
@@ -871,20 +880,20 @@ def make_system(case, world):
     if base == "ode":
         return SystemLossODE(
             u_dict=nets, dynamic_loss_dict=dyn,
-            initial_condition_dict={u: kws[u]["initial_condition"] for u in unknowns},
-            obs_slice_dict=obs_slice,
+            initial_condition_dict=shuffled({u: kws[u]["initial_condition"] for u in unknowns}, 1),
+            obs_slice_dict=shuffled(obs_slice, 2),
             loss_weights=LossWeightsODEDict(**ws), params_dict=world["params"])
     kw = dict(
         u_dict=nets, dynamic_loss_dict=dyn,
-        omega_boundary_fun_dict={u: kws[u]["omega_boundary_fun"] for u in unknowns},
-        omega_boundary_condition_dict={u: kws[u]["omega_boundary_condition"] for u in unknowns},
-        omega_boundary_dim_dict={u: kws[u]["omega_boundary_dim"] for u in unknowns},
-        norm_samples_dict={u: kws[u]["norm_samples"] for u in unknowns},
-        norm_int_length_dict={u: kws[u]["norm_int_length"] for u in unknowns},
-        obs_slice_dict=obs_slice,
+        omega_boundary_fun_dict=shuffled({u: kws[u]["omega_boundary_fun"] for u in unknowns}, 3),
+        omega_boundary_condition_dict=shuffled({u: kws[u]["omega_boundary_condition"] for u in unknowns}, 4),
+        omega_boundary_dim_dict=shuffled({u: kws[u]["omega_boundary_dim"] for u in unknowns}, 5),
+        norm_samples_dict=shuffled({u: kws[u]["norm_samples"] for u in unknowns}, 6),
+        norm_int_length_dict=shuffled({u: kws[u]["norm_int_length"] for u in unknowns}, 7),
+        obs_slice_dict=shuffled(obs_slice, 2),
         loss_weights=LossWeightsPDEDict(**ws), params_dict=world["params"])
     if base == "nonstatio":
-        kw["initial_condition_fun_dict"] = {u: kws[u]["initial_condition_fun"] for u in unknowns}
+        kw["initial_condition_fun_dict"] = shuffled({u: kws[u]["initial_condition_fun"] for u in unknowns}, 8)
     return SystemLossPDE(**kw)
 
 
